@@ -61,6 +61,13 @@ CLAIMED = {
          "OptionTTL stores exactly 1..255 and defaults to 8; each forwarding step adds exactly one hop; Device validates before spawning and forwards the received message unmodified. Payload equality through a device chain (C01) and non-swapping of concurrent clients (C05) are decided there, not here.",
          "Anchored in the receiver/SetOption/Device functions (ANCHOR-MISSING fails closed); a hop guard written in a form outside the enumerated counter/value shapes is reported as undecided.",
          "DESIGN.md 4/C09, 3.4 E6"),
+ "C17": ("static analysis: ownership typestate (ESP-style property simulation over disjunctive worlds) on SSA with bottom-up callee summaries and 'consumed iff the call returned nil' contracts; anchored shape rules for the pool and reference-count primitives",
+         "Over every function that touches a *Message (126 functions, every path): no message is released or handed off twice, none is used (or a slice of its buffer returned/kept in a field) after release or hand-off, Send/SendMsg never release or leave the header stripped on an error return, "
+         "MakeUnique results are used, a message still retained in a field is cloned before it is handed to another goroutine, messages from Clone-fed queues are made unique before reaching the application, transports never write through a message; "
+         "pool classes allocate at least their class size, Free recycles only the last reference into its own class, MakeUnique/Dup produce private full copies, the reference count is only touched atomically. "
+         "These forbid the causes of aliasing/double release on all paths; the run-time effect (pool reuse timing) is not observed. Leaks are deliberately not reported.",
+         "Assumes the interface contracts the analysis itself checks on every implementation (TranPipe.Send / ProtocolPipe.SendMsg consume iff they return nil).",
+         "DESIGN.md 4/C17, 3.4 E5, Appendix D"),
 }
 
 NOT_YET = "check not built yet (work in progress; planned static rules in DESIGN.md section 4)"
